@@ -18,7 +18,7 @@ RULE = ("plan = (schema/dataclass/function declaration with aliases, alias_from,
         "default taken, required missing, dependency missing, unknown key, faulted leaf, alias conflict; distinct by "
         "(declaration digest, key-shape digest, fault digest)")
 ASSUMPTIONS = [
-    "failure of the same kind: with collect_errors the multisets of (error class, item) agree; fail-fast with exactly one reported error: same class; with >=2 failing items only 'both reject' (which error is met first follows iteration order, which the statement does not fix)",
+    "failure of the same kind: with collect_errors the multisets of (error class, item) agree; fail-fast with exactly one reported error: same class; with >=2 failing items the first (class, item) reported agrees too (both strategies go by the order of declaration, additional items last)",
     "result mappings are compared unordered; warnings are not compared",
     "declarations the library refuses at class-creation time are refused identically for both knob values and are skipped",
 ]
